@@ -547,7 +547,7 @@ func runC11(sc C11Sc, c *kit.Case) *kit.Violation {
 
 func init() {
 	kit.Register("C11a",
-		"rapid: histories over a node with the bundled in-memory peer store: accepted announce_peer (token obtained by a genuine get_peers from another port of the same IP; port 1..65535, implied_port on/off with and without a `port` key), announces with an invalid token, and get_peers with every want combination, from a pool of 1..5 IPv4/IPv6/v4-mapped source IPs (one representation per socket kind) over 1..3 infohashes. Oracle: reference map infohash -> source IP -> endpoint; every `values` entry is 6 or 18 bytes, of a family the requester wants, and equals a currently announced endpoint of that infohash (no stale port, no other infohash); every announced endpoint whose family the requester wants is present; every reply carries a token. Non-trivial: >= 2 IPs on one infohash plus a re-announce with a different port, or a mixed-family store queried with a one-family want.",
+		"rapid: histories over a node with the bundled in-memory peer store: accepted announce_peer (token obtained by a genuine get_peers from another port of the same IP; port 1..65535, implied_port on/off with and without a `port` key), announces with an invalid token, and get_peers with every want combination, from a pool of 1..8 IPv4/IPv6/v4-mapped source IPs (one representation per socket kind) over 1..6 infohashes (the all-zero and all-ones infohash among them); bursts of 2..6 get_peers and of first announces for a fresh infohash injected back to back; swarms of 9..257 further hosts announcing one infohash, then a member changing its port. Oracle: reference map infohash -> source IP -> endpoint; every `values` entry is 6 or 18 bytes, of a family the requester wants, and equals a currently announced endpoint of that infohash (no stale port, no other infohash); every announced endpoint whose family the requester wants is present; every reply carries a token. Non-trivial: >= 2 IPs on one infohash plus a re-announce with a different port, or a mixed-family store queried with a one-family want.",
 		[]string{"cross-family conversion of values (an IPv4 peer sent v4-mapped in 18 bytes to an n6 requester) is permitted, not required",
 			"a want list naming neither n4 nor n6 leaves the wanted families open: only the nothing-unannounced clause is applied",
 			"one IP representation per socket kind; same IP = same address after unmapping"},
